@@ -20,6 +20,16 @@ def cases(tier, seed):
     # analyse -> edit the same model object in place -> analyse again with the same operation object
     for m in sp.structures_upto(4 if tier == 'quick' else 5):
         yield ('SE', m)
+    from . import families
+    for m in families.models():
+        yield ('S', m)
+    for spec in families.BIG_SPECS:
+        yield ('B', spec)
+    for m in families.models(11):
+        for t in families.deep_trees()[::9]:
+            yield ('SK', cm.with_ctc(m, t))
+    for t in families.deep_trees():
+        yield ('SK', cm.on_carrier([t]))
     ksets = list(cm.k1()) + list(cm.k2_subset())
     for n in range(2, n_ctc + 1):
         for m in sp.structures(n):
@@ -42,12 +52,30 @@ def plan(tier, what):
     }
 
 
-describe = cm.describe_model_case
+def describe(case):
+    if case[0] == 'B':
+        return 'B:%s' % (case[1],)
+    return cm.describe_model_case(case)
+
+
+def resolve(case):
+    if case[0] == 'B':
+        from . import families
+        return families.big_build(case[1])
+    return case[1]
+
+
 reduce = cm.reduce_model_case
 
 
 def nontrivial(case):
-    return cm.has_group_or_ctc(case[1])
+    return case[0] == 'B' or cm.has_group_or_ctc(case[1])
+
+
+def reduce(case):  # noqa: F811
+    if case[0] == 'B':
+        return
+    yield from cm.reduce_model_case(case)
 
 
 def edit_history(model, op_class, oracle):
